@@ -19,6 +19,7 @@ const (
 	fwdErrExit                // if err := x.M(params); err != nil { return ..., err }
 	fwdBoolAnd                // if ok := x.M(); !ok { return false } ... return true
 	fwdCapsAnd                // acc.f = acc.f && x.M().F() for every capability
+	fwdAllFirstErr            // every child is called whatever the others answered; the first error is returned
 )
 
 type fwdSpec struct {
